@@ -194,6 +194,14 @@ def run(ctx, tier):
                                               'no interpolation loop with a recognisable step count (unrecognised shape)', loc=m.loc(0)))
             continue
         probs = list(s.get('problems', []))
+        if s.get('cap') is not None:
+            probs.append('the step count is capped at %g: for motions longer than %g x (L*c) the gap between validity queries grows '
+                         'without bound (exceeds the longest valid segment length)' % (s['cap'], s['cap']))
+        if probs and s.get('round') is None:
+            # formula not recognised at all: one report, not a cascade
+            r_res.inst('%s: step formula' % m.path, ok=False)
+            r_res.violations.append(Violation('C03', 'C03.res', m.path, 'formula', probs[0] + ' (unrecognised shape)', loc=m.loc(0)))
+            continue
         if not s['dist_ok']:
             probs.append('the step count is not derived from distance(from, to) of the checked end points')
         if not s['lvs_ok']:
